@@ -3,6 +3,7 @@ package streamfilter
 import (
 	internaltypes "lunar/engine/streams/internal-types"
 	publictypes "lunar/engine/streams/public-types"
+	"lunar/engine/utils"
 
 	"github.com/rs/zerolog/log"
 )
@@ -69,8 +70,16 @@ func (node *FilterNode) isStatusCodeQualified(
 		return true
 	}
 
+	response := APIStream.GetResponse()
+	if utils.IsInterfaceNil(response) {
+		// The gateway is answering the request itself (a processor of the request path produced
+		// the response): there is no provider response whose status could be compared.
+		log.Trace().Msgf("No provider response to qualify the status code on Flow: %s", flow.GetName())
+		return true
+	}
+
 	for _, statusCode := range allowedStatusCodes {
-		if statusCode == APIStream.GetResponse().GetStatus() {
+		if statusCode == response.GetStatus() {
 			log.Trace().Msgf("Status code is qualified for Flow: %s", flow.GetName())
 			return true
 		}
